@@ -179,7 +179,13 @@ def _mem_store(c, odv):
             self._d = bytes(data)
 
     var = MemVar(odv, bytes(c["cur"]))
-    return var, (lambda: bytes(var._d))
+
+    def poke(bs, how):
+        if how % 2:
+            var._d = bytes(bs)            # the storage itself changes
+        else:
+            var.data = bytes(bs)          # a direct write of the data through the same object
+    return var, (lambda: bytes(var._d)), poke
 
 
 def _sdo_store(c, odv):
@@ -198,7 +204,15 @@ def _sdo_store(c, odv):
     rem.associate_network(net)
     rem.sdo.RESPONSE_TIMEOUT = 0.01
     loc.set_data(0x2000, 0, bytes(c["cur"]))
-    return rem.sdo[0x2000], (lambda: bytes(loc.get_data(0x2000, 0)))
+
+    def poke(bs, how):
+        if how % 3 == 0:
+            loc.set_data(0x2000, 0, bytes(bs))                 # the device changes its object
+        elif how % 3 == 1:
+            loc.sdo[0x2000].data = bytes(bs)                   # ... through its own accessor
+        else:
+            rem.sdo[0x2000].data = bytes(bs)                   # a second accessor of the master downloads it
+    return rem.sdo[0x2000], (lambda: bytes(loc.get_data(0x2000, 0))), poke
 
 
 def _pdo_store(c, odv):
@@ -219,7 +233,15 @@ def _pdo_store(c, odv):
     for pv, b in zip(pre + post, list(c["pre"]) + list(c["post"])):
         pv.raw = b
     var.data = bytes(c["cur"])
-    return var, (lambda: bytes(m.data))
+    m.cob_id = 0x181
+
+    def poke(bs, how):
+        frame = bytes(c["pre"]) + bytes(bs) + bytes(c["post"])
+        if how % 2 == 0:
+            m.on_message(0x181, bytearray(frame), 1.0 + how)   # a newly received PDO
+        else:
+            m.data[:] = frame                                  # the application fills the message buffer
+    return var, (lambda: bytes(m.data)), poke
 
 
 def fraction_obs(x):
@@ -231,7 +253,7 @@ def fraction_obs(x):
     return [fr.numerator, fr.denominator]
 
 
-def do_op(var, op):
+def do_op(var, op, poke=None):
     k = op[0]
     if k == "set_raw":
         var.raw = op[1]
@@ -248,6 +270,8 @@ def do_op(var, op):
         var.desc = op[1]
     elif k == "get_desc":
         return S(var.desc)
+    elif k == "poke":                     # the stored value changes by a route other than this accessor
+        poke(op[1], op[2])
     elif k == "add_desc":                 # the application changes the table between two uses
         var.od.add_value_description(op[1], op[2])
     elif k == "set_bits":
@@ -287,11 +311,11 @@ def _impl(c):
         return [guarded(lambda: odv.encode_phys(pyval(c["v"]))),
                 guarded(lambda: fraction_obs(odv.decode_phys(c["raw"])))]
     odv = make_od(c)
-    var, buf = {"mem": _mem_store, "sdo": _sdo_store, "pdo": _pdo_store}[c["store"]](c, odv)
+    var, buf, poke = {"mem": _mem_store, "sdo": _sdo_store, "pdo": _pdo_store}[c["store"]](c, odv)
     if k == "ops":
         out = []
         for op in c["ops"]:
-            r = guarded(do_op, var, op)
+            r = guarded(do_op, var, op, poke)
             out.append([r, buf()])
         return out
     if k == "bits_sweep":
@@ -517,6 +541,9 @@ def oracle(c, o):
                     return (sig, f"{what}: {res!r}")
                 if res != field_get(raw, r[0], r[1]):
                     return ("bits_get_wrong", f"{what}: returned {res!r}, bits {r[0]}..{r[1]} are {field_get(raw, r[0], r[1]):#x}")
+        elif kind == "poke":
+            if isinstance(res, Err) or nbuf != pre + bytes(op[1]) + post:
+                return ("runner_error", f"{what}: the store did not take the new bytes: {res!r}, buffer {nbuf.hex()}")
         elif kind == "add_desc":
             descs[op[1]] = op[2]
             if isinstance(res, Err) or nbuf != buf:
@@ -583,6 +610,7 @@ def gop(op):
     if k == "set_bits": return f"OSetBits {gkey(op[1])} {gz(op[2])}"
     if k == "get_bits": return f"OGetBits {gkey(op[1])}"
     if k == "held_bits": return f"OHeldBits {gkey(op[1])} {gz(op[2])}"
+    if k == "poke": return f"OPoke {gzlist(op[1])}"
     raise ValueError(k)
 
 
@@ -715,6 +743,33 @@ def gen_bits(rng, tier):
             ops += [["set_bits", key, v], ["get_bits", key], ["get_raw"]]
         cases.append(dict(kind="ops", **store_fields(rng, dt, rand_raw(rng, dt), pick_store(rng, i)), defs=defs, ops=ops))
         i += 1
+    # the stored value changes by another route between two uses of the SAME variable object (a received PDO,
+    # the device / a second accessor changing the object, a direct data write): every .bits access must see the
+    # current raw value, and an assignment must keep the current value of all other bits
+    for _ in range({"quick": 240, "thorough": 1500, "search": 120}[tier]):
+        dt = rng.choice([t for t, (sg, w) in INT_TYPES.items() if not sg] + [0x03, 0x04])
+        w = INT_TYPES[dt][1]
+        lo = rng.randrange(min(w, 32))
+        hi = rng.randrange(lo, min(w, 32))
+        hows = ["list", "slice", "name"] + (["int"] if lo == hi else [])
+        key, defs = spell(lo, hi, rng.choice(hows), rng)
+        lo2 = rng.randrange(w)
+        key2, _ = spell(lo2, lo2, "int", rng)
+        ops = [[rng.choice(["get_bits", "get_bits", "get_raw"]), key][:2] if rng.random() < 0.8 else ["set_bits", key, 0]]
+        if ops[0][0] == "get_raw":
+            ops = [["get_raw"], ["get_bits", key]]
+        for step in range(rng.randint(1, 3)):
+            new = rand_raw(rng, dt)
+            ops.append(["poke", list(enc(dt, new)), rng.randrange(6)])
+            x = rng.random()
+            if x < 0.4:
+                ops += [["get_bits", key], ["get_bits", key2]]
+            elif x < 0.8:
+                ops += [["set_bits", key, rng.choice(field_values(rng, hi - lo + 1, 3))], ["get_raw"], ["get_bits", key]]
+            else:
+                ops += [["held_bits", key, rng.choice(field_values(rng, hi - lo + 1, 3))], ["get_bits", key2], ["get_raw"]]
+        cases.append(dict(kind="ops", **store_fields(rng, dt, rand_raw(rng, dt), pick_store(rng, i)), defs=defs, ops=ops))
+        i += 1
     # keys that are not ranges, values that do not fit, refused keys (model comparison; the oracle demands nothing)
     odd_keys = [{"slice": [1, None, None]}, {"slice": [None, None, None]}, {"slice": [0, 8, 2]}, {"slice": [7, 2, -1]},
                 {"slice": [7, None, -1]}, {"slice": [3, 3, None]}, {"slice": [5, 2, None]}, {"slice": [0, 4, 0]},
@@ -838,6 +893,7 @@ def gen_desc(rng, tier):
 
 DYADIC = [0.5, 0.25, 2.0, 8.0, -4.0, 1, 2, -1, 0.125, -0.5, 1024.0, 2.0 ** -10]
 DECIMAL = [0.1, 10.0, 1e-3, 1e3, 10, 1000, -3, 3, 0.3, -0.01, 1e-6, 1e6, 7.5]
+INT_FACTORS = [3, -3, 10, -10, 25, -25, 7, -7, 1000, -1000, 4, -4, 2, -2, -1, 6, -6, 100, -100]
 OFFSETS = [(0, 1), (1, 4), (-1, 4), (1, 2), (-1, 2), (3, 8), (-3, 8), (3, 2), (-5, 2), (1, 1024), (511, 1024)]
 
 
@@ -879,6 +935,30 @@ def gen_phys(rng, tier):
                     cases.append(dict(kind="ops", **store_fields(rng, dt, raw0, pick_store(rng, i)), f=f, ops=ops,
                                       model=bool(exact)))
                     i += 1
+    # integer-typed factors (var.factor = -10 in application code) with requests that are not multiples of the
+    # factor, as int and as float: remainders just below / at / just above half a step, both signs
+    for fi in INT_FACTORS:
+        f = num_of(fi)
+        a = abs(fi)
+        rems = sorted({1, a - 1, a // 2, a // 2 + 1, (a - 1) // 2, rng.randrange(1, a), rng.randrange(1, a)} - {0, a}) if a > 1 else [0]
+        for dt in rng.sample(list(INT_TYPES), {"quick": 4, "thorough": 16, "search": 3}[tier]):
+            lo, hi = rng_of(dt)
+            for rem in rems:
+                raw = rng.choice([rng.randint(max(lo, -200), min(hi, 200)), rng.randint(lo, hi), rng.randint(max(lo, -6), min(hi, 6))])
+                x = raw * fi + rng.choice([rem, -rem])
+                for as_float in (False, True):
+                    if as_float and not f64_exact(Fraction(x)):
+                        continue
+                    v = num_of(float(x)) if as_float else num_of(x)
+                    raw0 = rand_raw(rng, dt)
+                    if rng.random() < 0.4:
+                        cases.append(dict(kind="phys_od", dt=dt, f=f, v=v, raw=raw,
+                                          model=bool(div_steps(v, f) == 0 and mul_steps(raw, f) == 0)))
+                    else:
+                        cases.append(dict(kind="ops", **store_fields(rng, dt, raw0, pick_store(rng, i)), f=f,
+                                          ops=[["set_phys", v], ["get_raw"], ["get_phys"]],
+                                          model=bool(phys_exact(v, f, dt, raw0))))
+                        i += 1
     # factor 0 (int and float), value out of the type's range
     for f in (num_of(0), num_of(0.0)):
         for store in ("mem", "sdo", "pdo"):
@@ -916,6 +996,12 @@ def gen_sweeps(rng):
                     continue
                 cases.append(dict(kind="phys_sweep", **store_fields(rng, dt, 0, "mem"), f=num_of(fval), off=list(off),
                                   model=False))
+    for fi in (10, -10, 5, -5, -25, 3, -3):       # integer factor, integer requests (raw + k/|f|) * f
+        for dt in (0x02, 0x05, 0x03):
+            for k in sorted({1, abs(fi) - 1, abs(fi) // 2 + 1, abs(fi) // 2}):
+                for sgn in (1, -1):
+                    cases.append(dict(kind="phys_sweep", **store_fields(rng, dt, 0, "mem"), f=num_of(fi),
+                                      off=[sgn * k, abs(fi)], model=False))
     return cases
 
 
